@@ -56,6 +56,8 @@ TypesExec == [
   C |-> [kind |-> "OBJECT", possible |-> {"C"}, possibleSeq |-> <<"C">>, values |-> <<>>, way |-> "class",
     fields |-> [ s |-> Rs(Nm("String")), c |-> Rs(Nm("String")) ]],
   U |-> [kind |-> "UNION", possible |-> {"A", "C"}, possibleSeq |-> <<"A", "C">>, values |-> <<>>, way |-> "", fields |-> NoFields],
+  \* a union sharing no object type with the interface P (an abstract type spread inside a disjoint abstract type is impossible)
+  V |-> [kind |-> "UNION", possible |-> {"C"}, possibleSeq |-> <<"C">>, values |-> <<>>, way |-> "", fields |-> NoFields],
   E |-> [kind |-> "ENUM", possible |-> {}, possibleSeq |-> <<>>, values |-> <<"X", "Y">>, way |-> "", fields |-> NoFields],
   \* an enum with look-alike value names (a misspelt value has several close matches)
   Sz |-> [kind |-> "ENUM", possible |-> {}, possibleSeq |-> <<>>, values |-> <<"LARGE", "XLARGE", "XXLARGE", "XLARGER">>, way |-> "", fields |-> NoFields],
